@@ -146,7 +146,7 @@ type Case struct {
 	ConcFirst bool `json:"conc_first,omitempty"`
 }
 
-var profile = prog.Profile{Scopes: true, Control: true, Errors: true, IncDec: true, MaxDepth: 4, MaxStmts: 4}
+var profile = prog.Profile{Scopes: true, Control: true, Errors: true, IncDec: true, HostChan: true, MaxDepth: 4, MaxStmts: 4}
 
 func gen(t *rapid.T) Case {
 	p, _ := prog.Generate(t, profile)
@@ -505,6 +505,183 @@ func oracleResidue(c ResidueCase, o *h.Obs) *h.Fail {
 	return nil
 }
 
+
+// ---------- sub-check "types": type names resolved per environment, environments derived from one template ----------
+
+// TypeStep is one run: program Prog[P] (each program is parsed ONCE for the whole case) in an
+// environment derived from the case's template environment.
+type TypeStep struct {
+	P      int    `json:"p"`
+	Derive string `json:"derive"` // copy | deepcopy | child | copy-of-child
+	T      string `json:"t"`      // what the name T is bound to in this run's environment: int64 | string | float64 | bool | "" (unbound)
+}
+
+type TypesCase struct {
+	Progs []string   `json:"progs"`
+	Steps []TypeStep `json:"steps"`
+}
+
+// programs over three type names: T (bound per run, to different types), U (bound in the template),
+// W / W2 (defined by some programs themselves with make(type ...))
+var typeProgs = []string{
+	"make(T)", "x = make(T)\n[x]", "s = make(struct{A T, B int64})\ns.A", "s = make(struct{A T})\ns", "v = make([]T, 2)\nv[0]", "m = make(map[string]T)\nm[\"k\"]",
+	"new(T)", "*new(T)", "make(U)", "make(struct{A U, B T})", "make([]U, 1)", "func f() { return make(T) }\nf()", "func f() { return make(struct{A T}) }\n[f(), f()]",
+	"for i = 0; i < 2; i++ { x = make(struct{A T}) }\nx.A", "make(type W, make(T))\nmake(W)", "make(type W, 1)\nmake(W)", "make(W)", "make(struct{A W})", "make(type W2, \"s\")\nmake(type W, 2.5)\n[make(W), make(W2)]",
+	"make(W2)", "make(type U, \"shadow\")\nmake(U)", "make(type T, 2.5)\nmake(T)", "make([]W, 1)", "make(chan T, 1)", "[]T{}", "map[string]T{}", "make(map[T]U)",
+}
+
+var typeKinds = map[string]interface{}{"int64": int64(0), "string": "", "float64": float64(0), "bool": false}
+
+func genTypes(t *rapid.T) TypesCase {
+	var c TypesCase
+	n := rapid.IntRange(1, 3).Draw(t, "nprogs")
+	for i := 0; i < n; i++ {
+		c.Progs = append(c.Progs, rapid.SampledFrom(typeProgs).Draw(t, "prog"))
+	}
+	k := rapid.IntRange(2, 6).Draw(t, "nsteps")
+	for i := 0; i < k; i++ {
+		c.Steps = append(c.Steps, TypeStep{
+			P:      rapid.IntRange(0, n-1).Draw(t, "p"),
+			Derive: rapid.SampledFrom([]string{"copy", "copy", "deepcopy", "child", "copy-of-child"}).Draw(t, "derive"),
+			T:      rapid.SampledFrom([]string{"int64", "string", "float64", "bool", ""}).Draw(t, "T"),
+		})
+	}
+	return c
+}
+
+func typesTemplate() *env.Env {
+	e := env.NewEnv()
+	e.DefineType("U", int64(0))
+	e.Define("tv", int64(7))
+	return e
+}
+
+func deriveEnv(tmpl *env.Env, st TypeStep) *env.Env {
+	var e *env.Env
+	switch st.Derive {
+	case "copy":
+		e = tmpl.Copy()
+	case "deepcopy":
+		e = tmpl.DeepCopy()
+	case "child":
+		e = tmpl.NewEnv()
+	default:
+		e = tmpl.NewEnv().Copy()
+	}
+	if st.T != "" {
+		e.DefineType("T", typeKinds[st.T])
+	}
+	return e
+}
+
+func runTypes(e *env.Env, tree ast.Stmt) (out string) {
+	defer func() {
+		if r := recover(); r != nil {
+			out = "panic: " + fmt.Sprint(r)
+		}
+	}()
+	ctx, cancel := context.WithTimeout(context.Background(), 5*time.Second)
+	defer cancel()
+	v, err := vm.RunContext(ctx, e, nil, tree)
+	if err != nil {
+		return "error: " + err.Error()
+	}
+	return describeTyped(reflect.ValueOf(v), 0)
+}
+
+// describeTyped renders a result with its Go types (struct field types included), without addresses.
+func describeTyped(rv reflect.Value, depth int) string {
+	if !rv.IsValid() {
+		return "nil"
+	}
+	if depth > 4 {
+		return "..."
+	}
+	switch rv.Kind() {
+	case reflect.Interface, reflect.Ptr:
+		if rv.IsNil() {
+			return rv.Type().String() + "(nil)"
+		}
+		return rv.Type().String() + "->" + describeTyped(rv.Elem(), depth+1)
+	case reflect.Slice, reflect.Array:
+		parts := []string{}
+		for i := 0; i < rv.Len(); i++ {
+			parts = append(parts, describeTyped(rv.Index(i), depth+1))
+		}
+		return rv.Type().String() + "[" + strings.Join(parts, " ") + "]"
+	case reflect.Struct:
+		parts := []string{}
+		for i := 0; i < rv.NumField(); i++ {
+			parts = append(parts, rv.Type().Field(i).Name+":"+describeTyped(rv.Field(i), depth+1))
+		}
+		return rv.Type().String() + "{" + strings.Join(parts, " ") + "}"
+	case reflect.Map:
+		return fmt.Sprintf("%s(len %d)", rv.Type(), rv.Len())
+	case reflect.Chan, reflect.Func:
+		return rv.Type().String()
+	}
+	return fmt.Sprintf("%s(%v)", rv.Type(), rv)
+}
+
+func oracleTypes(c TypesCase, o *h.Obs) *h.Fail {
+	o.Key = fmt.Sprintf("%q|%v", c.Progs, c.Steps)
+	shared := make([]ast.Stmt, len(c.Progs))
+	for i, src := range c.Progs {
+		t, err := parser.ParseSrc(src)
+		if err != nil {
+			o.Excluded = "harness: type program does not parse: " + err.Error()
+			return nil
+		}
+		shared[i] = t
+	}
+	before := make([]string, len(shared))
+	for i, t := range shared {
+		before[i] = dump.Dump(t, dump.Opts{Positions: true})
+	}
+	tmpl := typesTemplate()
+	distinctT := map[string]bool{}
+	for i, st := range c.Steps {
+		if st.P >= len(shared) {
+			o.Excluded = "harness: step refers to a missing program"
+			return nil
+		}
+		distinctT[st.T] = true
+		got := runTypes(deriveEnv(tmpl, st), shared[st.P])
+		// reference: a fresh parse of the same source in an environment derived the same way
+		// from a FRESH template (no history at all)
+		fresh, _ := parser.ParseSrc(c.Progs[st.P])
+		want := runTypes(deriveEnv(typesTemplate(), st), fresh)
+		o.Class("derive_" + st.Derive)
+		if strings.HasPrefix(want, "error") {
+			o.Class("reference_run_fails")
+		}
+		if got != want {
+			return h.Failf("C14|types|run-differs-from-fresh-parse-in-fresh-environment", "step %d of %v\nprogram (parsed once, shared by the steps that use it):\n%s\nenvironment: %s of the template, T bound to %q\nshared tree in derived environment: %s\nfresh parse in an equally derived fresh environment: %s\nall programs: %q", i, c.Steps, c.Progs[st.P], st.Derive, st.T, got, want, c.Progs)
+		}
+	}
+	for i, t := range shared {
+		if after := dump.Dump(t, dump.Opts{Positions: true}); after != before[i] {
+			return h.Failf("C14|types|tree-changed", "program:\n%s\nthe parsed tree changed while it was executed", c.Progs[i])
+		}
+	}
+	if got := runTypes(tmpl, mustParse("make(U)")); got != "int64(0)" {
+		return h.Failf("C14|types|template-changed", "after the runs in derived environments, make(U) in the template environment yields %s (want int64(0)); steps %v programs %q", got, c.Steps, c.Progs)
+	}
+	if got := runTypes(tmpl, mustParse("make(W)")); !strings.HasPrefix(got, "error") {
+		return h.Failf("C14|types|template-changed", "after the runs in derived environments, the template environment knows the type W defined by a run in a copy: make(W) yields %s; steps %v programs %q", got, c.Steps, c.Progs)
+	}
+	o.NonTrivial = len(c.Steps) >= 2 && len(distinctT) >= 2
+	return nil
+}
+
+func mustParse(src string) ast.Stmt {
+	t, err := parser.ParseSrc(src)
+	if err != nil {
+		panic(err)
+	}
+	return t
+}
+
 func TestC14(t *testing.T) {
 	c := h.New(t, "C14")
 	defer c.Finish()
@@ -514,4 +691,6 @@ func TestC14(t *testing.T) {
 	h.Run(c, "import", c.N(400, 4000), genImport, oracleImport)
 	c.Rule("residue: 1-3 idioms that take a value the interpreter hands out from a shared box (nil/true/false literals, 'no value' results, small computed integers, the 1 of ++) and write through a pointer / ++ / op= / element / field / parameter; a fixed canary program in a fresh environment must evaluate as at process start; every case non-trivial")
 	h.Run(c, "residue", c.N(3000, 20000), genResidue, oracleResidue)
+	c.Rule("types: 1-3 programs over the type names T (bound per run to int64/string/float64/bool or unbound), U (bound in a template environment) and W (defined by some programs with make(type ...)), each parsed once; 2-6 runs, each in an environment derived from the one template by Copy / DeepCopy / NewEnv / Copy of a child; every run must equal a fresh parse in an environment derived the same way from a fresh template; the template must not learn a type from a run; non-trivial = >= 2 runs with >= 2 different bindings of T")
+	h.Run(c, "types", c.N(3000, 20000), genTypes, oracleTypes)
 }
